@@ -166,8 +166,21 @@ func runC14(c *core.Ctx) {
 				whySplit = "computeNeededNodes is not given the minimum chosen for this shard"
 			}
 			for k, m := range []ssa.Value{fn.Params[0], fn.Params[1]} {
-				lk, isL := need.Call.Args[k].(*ssa.Lookup)
-				if !isL || lk.X != m || lk.Index != id || mu.Key != id {
+				// this shard's list: map[id] looked up directly, or (for the ranged map) the range value
+				own := false
+				if lk, isL := need.Call.Args[k].(*ssa.Lookup); isL && lk.X == m && lk.Index == id {
+					own = true
+				}
+				if ex, isEx := need.Call.Args[k].(*ssa.Extract); isEx && ex.Index == 2 {
+					if nx, isNext := ex.Tuple.(*ssa.Next); isNext {
+						if rg, isRg := nx.Iter.(*ssa.Range); isRg && rg.X == m {
+							if kx, isK := id.(*ssa.Extract); isK && kx.Tuple == ex.Tuple && kx.Index == 1 {
+								own = true
+							}
+						}
+					}
+				}
+				if !own || mu.Key != id {
 					whySplit = "computeNeededNodes is not given this shard's own eligible and waiting lists"
 				}
 			}
